@@ -1,6 +1,8 @@
 mod c19;
 mod c20;
 mod gate_eval;
+mod ram_tpl;
+mod synth_findings;
 mod selftest;
 mod synth_case;
 mod wellformed;
